@@ -13,6 +13,7 @@
 import Sbepp.Lemmas.Parse
 import Sbepp.Lemmas.Walk
 import Sbepp.Spec.Events
+import Sbepp.Lemmas.VisitTree
 
 namespace Sbepp.Properties.C19
 open Sbepp Sbepp.Schema Sbepp.Spec.Events
@@ -41,6 +42,27 @@ theorem visit_cursor_at_end (bo : ByteOrder) (l : Level) (v : LVal) (wbl : Nat) 
 theorem visit_stops (evs : List String) (k : Nat) (hk : k ≤ evs.length) :
     (evs.take k).length = k ∧ ∃ rest, evs = evs.take k ++ rest :=
   ⟨by rw [List.length_take]; omega, ⟨evs.drop k, (List.take_append_drop k evs).symm⟩⟩
+
+/-- **visit_tree_is_scan**: why the record list of a stopped visit is a prefix.
+    The callbacks of a recursing visit form a tree (member → callbacks made by
+    its `visit_children`); the generated `||` chains and the entry loops
+    (`VisitTree.visitT`/`visitAll`) evaluate it left to right and return at the
+    first `true`.  For *every* stateful visitor this is the same as scanning the
+    pre-order callback list and stopping at the first `true`: no callback after
+    the stop, none skipped before it, the visitor's state threaded in order. -/
+theorem visit_tree_is_scan {σ : Type} (cb : σ → String → σ × Bool) (s : σ) (t : VisitTree.CbTree) :
+    VisitTree.visitT cb s t = VisitTree.scan cb s t.flatten :=
+  VisitTree.visitT_eq_scan cb s t
+
+/-- **visit_stops_tree**: the recording visitor that returns `true` at its k-th
+    callback sees exactly the first k callbacks of the complete visit and the
+    visit reports the stop; for `k = 0` or `k` beyond the number of callbacks it
+    sees all of them and the visit returns `false`. -/
+theorem visit_stops_tree (t : VisitTree.CbTree) (k : Nat) :
+    VisitTree.visitT (VisitTree.recorder k) [] t =
+      if 0 < k ∧ k ≤ t.flatten.length then (t.flatten.take k, true) else (t.flatten, false) := by
+  rw [VisitTree.visitT_eq_scan, VisitTree.scan_recorder]
+  simp
 
 /-- visiting a set reports every known choice with exactly its bit -/
 theorem set_visit (choices : List Choice) (v : Nat) (name enc : String) (o : Option Nat) (a : Attrs) :
@@ -81,5 +103,15 @@ example :
     eventsL .little [] "" fds [gd] l v
       = ["F:a=201", "F:s=[6162]", "G:g:n=2", "E:g[0]", "F:g[0].x=5", "D:g[0].d=<07>", "E:g[1]", "F:g[1].x=6",
          "D:g[1].d=<>", "D:e=<09>"] := by decide
+
+/-! non-vacuity: a message with a field, a group of two entries and a data
+    member; stop at the 4th callback (inside the first entry) -/
+example :
+    let t : VisitTree.CbTree := .node "M" [.node "F:a" [], .node "G:g" [.node "E:g[0]" [.node "F:g[0].x" []],
+      .node "E:g[1]" [.node "F:g[1].x" []]], .node "D:e" []]
+    VisitTree.visitT (VisitTree.recorder 4) [] t = (["M", "F:a", "G:g", "E:g[0]"], true)
+    ∧ VisitTree.visitT (VisitTree.recorder 0) [] t
+        = (["M", "F:a", "G:g", "E:g[0]", "F:g[0].x", "E:g[1]", "F:g[1].x", "D:e"], false) := by
+  decide
 
 end Sbepp.Properties.C19
